@@ -76,7 +76,7 @@ CheckZinc(e) ==
           LET r == ZincRead(e.text) IN
           \* sentences carrying a unit text that is not a database symbol denote no well-formed value (lookup by
           \* the other identifiers is C15's subject)
-          IF r.ok /\ RvDecidable(r.v) /\ ~HasOptUriEsc(e.text) THEN Need(e.from_str.outcome = "ok", "C04", <<"sentence rejected", e.from_str.msg>>)
+          IF r.ok /\ RvDecidable(r.v) /\ ~DebatableEsc(e.text) THEN Need(e.from_str.outcome = "ok", "C04", <<"sentence rejected", e.from_str.msg>>)
                        \o (IF e.from_str.outcome = "ok" THEN Need(Denotes(r.v, e.from_str.back), "C04", <<"sentence misread">>) ELSE <<>>)
           ELSE <<>>
         ELSE <<>>)
